@@ -4,7 +4,7 @@ import glob, json, os
 HERE = os.path.dirname(os.path.dirname(os.path.abspath(__file__)))
 print("| seed | what it breaks | needs | outcome of the checks |")
 print("|---|---|---|---|")
-for d in sorted(glob.glob(os.path.join(HERE, "seeded", "*"))):
+for d in sorted(glob.glob(os.path.join(HERE, "seeded", "C*"))):
     m = json.load(open(os.path.join(d, "meta.json")))
     det = "; ".join(f"{k}: {v}" for k, v in m["detected_by"].items())
     print(f"| {os.path.basename(d)} | {m['breaks']} | {m['needs']} | {det} |")
